@@ -54,9 +54,9 @@ Section Step.
   Qed.
 
   (** * single-character tokens *)
-  Lemma step_open_root : forall dr p pe r,
-      step (mkS [] dr 0%Z p pe) (String "(" r) =
-      Cont (mkS [mkF "" [] [] None] dr 1%Z (Some OPENPAR) pe) r.
+  Lemma step_open_root : forall p pe r,
+      step (mkS [] None 0%Z p pe) (String "(" r) =
+      Cont (mkS [mkF "" [] [] None] None 1%Z (Some OPENPAR) pe) r.
   Proof. intros. reflexivity. Qed.
 
   Lemma step_open_inner : forall f fs dr L p pe r,
